@@ -122,13 +122,14 @@ func propC05(reps int) func(model.Case) hh.Verdict {
 				return hh.Fail("panic in catch-free twin: %v", res2.Panic)
 			}
 			var other []model.Iss
-			for _, is := range res2.Norm(false) {
+			for _, is := range res2.Norm(true) {
 				if !catchPaths[is.Path] {
 					other = append(other, is)
 				}
 			}
-			if !model.EqualIss(got, other) {
-				return hh.Fail("non-interference (run %d): with Catch %s, catch-free twin (minus the catching nodes' own issues) %s", r, fmtIss(got), fmtIss(other))
+			// (messages included: what a catching node swallowed must not show up in a sibling's issue)
+			if gotM := res.Norm(true); !model.EqualIss(gotM, other) {
+				return hh.Fail("non-interference (run %d): with Catch %s, catch-free twin (minus the catching nodes' own issues) %s", r, fmtIss(gotM), fmtIss(other))
 			}
 			d1, d2 := model.DeepCopy(dest.Elem()), model.DeepCopy(dest2.Elem())
 			for _, co := range spec.Catches {
@@ -181,7 +182,7 @@ func TestC05(t *testing.T) {
 		cfg := model.DefaultCfg(mode)
 		cfg.PPost = 0
 		cfg.NoDataTests, cfg.ForceCatch = true, true
-		cfg.PCatch, cfg.PVary, cfg.PAbsent, cfg.PJunk, cfg.PTestSat, cfg.PLight = 0.5, 0.4, 0.15, 0.08, 0.75, 0.3
+		cfg.PCatch, cfg.PVary, cfg.PAbsent, cfg.PJunk, cfg.PTestSat, cfg.PLight, cfg.POpts = 0.5, 0.4, 0.15, 0.08, 0.75, 0.3, 0.3
 		if h.Thorough() {
 			cfg.MaxDepth, cfg.MaxFields, cfg.MaxElems, cfg.ManyFields = 4, 6, 6, true
 		}
